@@ -28,6 +28,7 @@ from genjax._src.core.compiler.initial_style_primitive import (
 )
 from genjax._src.core.compiler.interpreters.incremental import (
     Diff,
+    NoChange,
     incremental,
 )
 from genjax._src.core.compiler.interpreters.stateful import (
@@ -717,6 +718,17 @@ def regenerate_transform(source_fn):
     return wrapper
 
 
+def _tag_literal_leaves(retval_diffs):
+    """Return values that are literal constants in the source come back from the incremental
+    interpreter without a change tag: they cannot have changed, so tag them (and only them)
+    `NoChange`."""
+    return jtu.tree_map(
+        lambda v: v if isinstance(v, Diff) else Diff(v, NoChange),
+        retval_diffs,
+        is_leaf=Diff.is_diff,
+    )
+
+
 #######################
 # Generative function #
 #######################
@@ -843,8 +855,7 @@ class StaticGenerativeFunction(Generic[R], GenerativeFunction[R]):
                 bwd_requests,
             ),
         ) = update_transform(self.source)(key, trace, constraint, argdiffs)
-        if not Diff.static_check_tree_diff(retval_diffs):
-            retval_diffs = Diff.no_change(retval_diffs)
+        retval_diffs = _tag_literal_leaves(retval_diffs)
 
         def make_bwd_request(traces, subconstraints):
             addresses = traces.keys()
@@ -883,6 +894,7 @@ class StaticGenerativeFunction(Generic[R], GenerativeFunction[R]):
                 bwd_requests,
             ),
         ) = static_edit_request_transform(self.source)(key, trace, addressed, argdiffs)
+        retval_diffs = _tag_literal_leaves(retval_diffs)
 
         def make_bwd_request(
             traces: dict[StaticAddress, Trace[R]],
@@ -925,6 +937,7 @@ class StaticGenerativeFunction(Generic[R], GenerativeFunction[R]):
         ) = regenerate_transform(self.source)(
             key, trace, selection, edit_request, argdiffs
         )
+        retval_diffs = _tag_literal_leaves(retval_diffs)
 
         def make_bwd_request(
             traces: dict[StaticAddress, Trace[R]],
